@@ -822,13 +822,14 @@ def rule_stack_sim(ctx, rep, only_raises=False):
     # a bracket that is still pending when the whole stack is processed is stepped over
     families.append(('3 runs of length 1..2 around a pending bracket',
                      ((a, br, b, c) if k == 1 else (a, b, br, c) for k in (1, 2) for a in small for b in small for c in small)))
+    # closers that were partly used up before they fail to find an opener (bounds recorded under a kind)
+    families.append(('4 runs, length 1..2', itertools.product(small, repeat=4)))
     if ctx.thorough:
         families += [('2 runs, the bracket at the stack bottom, 3 runs of length 1..2',
                       ((2, (a, b, br, c, d, e)) for a in both2 for b in both2 for c in small for d in small for e in small)),
                      ('3 runs around a pending bracket',
                       ((a, br, b, c) if k == 1 else (a, b, br, c) for k in (1, 2) for a in kinds for b in kinds for c in kinds))]
-        families += [('4 runs, length 1..2', itertools.product(small, repeat=4)),
-                     ('5 runs, all both-flanking', itertools.product(both3, repeat=5)),
+        families += [('5 runs, all both-flanking', itertools.product(both3, repeat=5)),
                      ('6 runs, all both-flanking, length 1..2', itertools.product(both2, repeat=6)),
                      ('6 runs, length 1', itertools.product(ones, repeat=6))]
     rep.instance(rule)
